@@ -197,8 +197,18 @@ void Groups::evalArguments( int argc, char* argv[]) noexcept( false)
    for (auto ai = alp.begin(); ai != alp.end(); ++ai)
    {
       auto  result = Handler::ArgResult::unknown;
+      // a long argument is handled by the handler that a single handler with
+      // all the arguments would select
+      auto const  key_owner =
+         (ai->mElementType == detail::ArgListElement::Type::stringArg)
+         ? findKeyOwner( ai->mArgString) : nullptr;
+
       for (auto & stored_group : mArgGroups)
       {
+         if ((key_owner != nullptr)
+             && (stored_group.mpArgHandler.get() != key_owner))
+            continue;   // for
+
          result = stored_group.mpArgHandler->evalSingleArgument( ai, alp.end());
          if (result != Handler::ArgResult::unknown)
          {
@@ -232,6 +242,52 @@ void Groups::evalArguments( int argc, char* argv[]) noexcept( false)
    } // end if
 
 } // Groups::evalArguments
+
+
+
+/// Determines the argument handler that a long argument from the command line
+/// belongs to, as if all arguments were defined in one handler: the handler
+/// that defines exactly this key, otherwise the only handler in which the key
+/// is an abbreviation of an argument.
+///
+/// @param[in]  arg_string  The long argument as given on the command line.
+/// @return  The handler that the argument belongs to, NULL if no handler knows
+///          this argument.
+/// @throw
+///    std::runtime_error if the key is an abbreviation of arguments in more
+///    than one handler.
+const Handler* Groups::findKeyOwner( const string& arg_string) const
+   noexcept( false)
+{
+
+   const detail::ArgumentKey  key( arg_string);
+   const Handler*             abbr_owner = nullptr;
+
+   for (auto const& stored_group : mArgGroups)
+   {
+      auto const  handler = stored_group.mpArgHandler.get();
+
+      if ((handler->mArguments.findExactArg( key) != nullptr)
+          || (handler->mSubGroupArgs.findExactArg( key) != nullptr))
+         return handler;
+   } // end for
+
+   for (auto const& stored_group : mArgGroups)
+   {
+      auto const  handler = stored_group.mpArgHandler.get();
+
+      if ((handler->mArguments.findArg( key) != nullptr)
+          || (handler->mSubGroupArgs.findArg( key) != nullptr))
+      {
+         if (abbr_owner != nullptr)
+            throw runtime_error( "Long argument abbreviation '--" + arg_string
+                                 + "' matches more than one argument");
+         abbr_owner = handler;
+      } // end if
+   } // end for
+
+   return abbr_owner;
+} // Groups::findKeyOwner
 
 
 
